@@ -41,6 +41,7 @@ fn alphabet() -> Vec<Op> {
         Op::Hist(2, vec![1.0, 2.5, 3.0], Some(0.5), true),
         Op::Hist(0, (0..40).map(|i| i as f64).collect(), None, true),
         Op::Hist(3, vec![1.0, 1e300], None, false),
+        Op::Hist(4, vec![f64::NAN, f64::INFINITY, f64::NEG_INFINITY, -0.0, f64::MAX, f64::MIN_POSITIVE], None, true),
         Op::Counter(5, 1, None),
         Op::Hist(5, vec![2.0, 4.0], None, true),
         Op::Drain,
@@ -62,6 +63,11 @@ struct Pending {
 }
 
 fn fmt_val_ok(s: &str, v: f64) -> bool {
+    // a non-finite value must be spelled as one (NaN / inf / -inf ...): a digit string that merely overflows to infinity
+    // when parsed back (e.g. 1.797693134862316e308) is a different, finite-looking number on the wire
+    if !v.is_finite() && s.chars().any(|c| c.is_ascii_digit()) {
+        return false;
+    }
     match s.parse::<f64>() {
         Ok(p) => (p.is_nan() && v.is_nan()) || p.to_bits() == v.to_bits(),
         Err(_) => false,
@@ -286,7 +292,7 @@ fn main() {
     driver::main(CheckDef {
         prop: "C09",
         level: "model_checking",
-        rule: "for every max_payload_len in {0..72 (thorough 0..260), boundary values around the longest payload, 8192} x length prefix {off,on} x prefix {None,p,pre} x global labels {[],[g:1]}: every sequence of the stated depth over 16 operations (counter/gauge with extreme values and optional timestamp, histogram/distribution with 0,1,2,3,40 values and optional sample rate, names of length 0..12, labels with empty value, drain) on one real PayloadWriter, plus a final drain; every drained payload is parsed by an independent DogStatsD parser and matched against the writes since the previous drain (name, type, tags, values in order at round-trip precision, length prefix, size limit, written/dropped accounting); distinct = distinct (config class, drain shape) states",
+        rule: "for every max_payload_len in {0..72 (thorough 0..260), boundary values around the longest payload, 8192} x length prefix {off,on} x prefix {None,p,pre} x global labels {[],[g:1]}: every sequence of the stated depth over 18 operations (counter/gauge with extreme values and optional timestamp, histogram/distribution with 0,1,2,3,40 values incl. NaN / +-inf / -0 / MAX / MIN_POSITIVE and optional sample rate, the same key with two different sample rates, names of length 0..12, labels with empty value, drain) on one real PayloadWriter, plus a final drain; every drained payload is parsed by an independent DogStatsD parser and matched against the writes since the previous drain (name, type, tags, values in order at round-trip precision, length prefix, size limit, written/dropped accounting); distinct = distinct (config class, drain shape) states",
         assumptions: &["strings in names/tags are benign (no ':' '|' ',' or newline): the DogStatsD protocol has no escaping and the property does not ask for any"],
         parts,
         run,
